@@ -94,6 +94,24 @@ def is_filler_raw(raw):
     return wire.frame_identity(raw) is None
 
 
+def _gap(items, i):
+    """kinds of the script items lying between the i-1-th and the i-th
+    expected frame (where a reader that loses frame i went wrong); part of the
+    violation signature, so that a known finding is identified by the input
+    shape that fails and not by the class alone"""
+    k = -1
+    gap = []
+    for it in items:
+        if it[0] == "frame":
+            k += 1
+            if k == i:
+                break
+            gap = []
+        else:
+            gap.append(it[0] + (":" + it[2] if it[0] == "filler" else ""))
+    return "+".join(sorted(set(gap))) or "nothing"
+
+
 def execute(scn):
     items = scn["items"]
     data = W.wire_of(items)
@@ -137,10 +155,16 @@ def execute(scn):
                 PROP,
                 "early-stop",
                 f"iteration ended after {i} of {len(expected)} frames with {len(data) - len(st.handed())} bytes of the stream unread "
-                f"(stopped at offset {len(st.handed())})",
+                f"(stopped at offset {len(st.handed())}); items between the last delivered and the first missing frame: {_gap(items, i)}",
+                signature=f"C02:early-stop@gap:{_gap(items, i)}",
             )
         elif i == len(delivered):
-            viol = violation(PROP, "lost-frame", f"frame {i} of {len(expected)} (len {len(expected[i])}, id {wire.frame_identity(expected[i])}) never delivered")
+            viol = violation(
+                PROP,
+                "lost-frame",
+                f"frame {i} of {len(expected)} (len {len(expected[i])}, id {wire.frame_identity(expected[i])}) never delivered; items between the last delivered and the first missing frame: {_gap(items, i)}",
+                signature=f"C02:lost-frame@gap:{_gap(items, i)}",
+            )
         elif i == len(expected):
             viol = violation(PROP, "extra-frame", f"delivered an extra frame (len {len(delivered[i])}) after all {len(expected)} expected")
         else:
